@@ -28,31 +28,38 @@ struct Machine {
   std::vector<S> gbuf, tbuf;
   S* gs(int k) { return gbuf.data() + SHIFT + GZ + k * (REP + GZ); }
   S* ts(int k) { return tbuf.data() + SHIFT + GZ + k * (DOF + GZ); }
-  Machine() : gbuf(SHIFT + GZ + 3 * (REP + GZ), canary()), tbuf(SHIFT + GZ + 2 * (DOF + GZ), canary()) {}
+  // the views are created ONCE per behaviour and live as long as the machine: a view must keep reflecting its buffer
+  // (a "view" that snapshots the coefficients at construction would go unnoticed with short-lived views)
+  std::unique_ptr<Eigen::Map<G>> m0, m1; std::unique_ptr<Eigen::Map<const G>> c0, c1;
+  std::unique_ptr<Eigen::Map<T>> v0; std::unique_ptr<Eigen::Map<const T>> w0, w1;
+  Machine() : gbuf(SHIFT + GZ + 3 * (REP + GZ), canary()), tbuf(SHIFT + GZ + 2 * (DOF + GZ), canary()) {
+    m0.reset(new Eigen::Map<G>(gs(0))); m1.reset(new Eigen::Map<G>(gs(1))); c0.reset(new Eigen::Map<const G>(gs(0))); c1.reset(new Eigen::Map<const G>(gs(2)));
+    v0.reset(new Eigen::Map<T>(ts(0))); w0.reset(new Eigen::Map<const T>(ts(0))); w1.reset(new Eigen::Map<const T>(ts(1)));
+  }
 };
 
 // dispatch a register name to the object (owning, mutable view, const view)
 template <class F> static void withG(Machine& m, const std::string& r, F&& f) {
   if (r == "g0") f(static_cast<const G&>(m.g[0])); else if (r == "g1") f(static_cast<const G&>(m.g[1])); else if (r == "g2") f(static_cast<const G&>(m.g[2]));
-  else if (r == "m0") { Eigen::Map<G> v(m.gs(0)); f(static_cast<const Eigen::Map<G>&>(v)); }
-  else if (r == "m1") { Eigen::Map<G> v(m.gs(1)); f(static_cast<const Eigen::Map<G>&>(v)); }
-  else if (r == "c0") { Eigen::Map<const G> v(m.gs(0)); f(v); }
-  else if (r == "c1") { Eigen::Map<const G> v(m.gs(2)); f(v); }
+  else if (r == "m0") f(static_cast<const Eigen::Map<G>&>(*m.m0));
+  else if (r == "m1") f(static_cast<const Eigen::Map<G>&>(*m.m1));
+  else if (r == "c0") f(static_cast<const Eigen::Map<const G>&>(*m.c0));
+  else if (r == "c1") f(static_cast<const Eigen::Map<const G>&>(*m.c1));
   else { std::fprintf(stderr, "bad G register %s\n", r.c_str()); std::exit(3); }
 }
 template <class F> static void withGMut(Machine& m, const std::string& r, F&& f) {
   if (r == "g0") f(m.g[0]); else if (r == "g1") f(m.g[1]); else if (r == "g2") f(m.g[2]);
-  else if (r == "m0") { Eigen::Map<G> v(m.gs(0)); f(v); } else if (r == "m1") { Eigen::Map<G> v(m.gs(1)); f(v); }
+  else if (r == "m0") f(*m.m0); else if (r == "m1") f(*m.m1);
   else { std::fprintf(stderr, "bad mutable G register %s\n", r.c_str()); std::exit(3); }
 }
 template <class F> static void withT(Machine& m, const std::string& r, F&& f) {
   if (r == "u0") f(static_cast<const T&>(m.u[0])); else if (r == "u1") f(static_cast<const T&>(m.u[1]));
-  else if (r == "v0") { Eigen::Map<T> v(m.ts(0)); f(static_cast<const Eigen::Map<T>&>(v)); }
-  else if (r == "w0") { Eigen::Map<const T> v(m.ts(0)); f(v); } else if (r == "w1") { Eigen::Map<const T> v(m.ts(1)); f(v); }
+  else if (r == "v0") f(static_cast<const Eigen::Map<T>&>(*m.v0));
+  else if (r == "w0") f(static_cast<const Eigen::Map<const T>&>(*m.w0)); else if (r == "w1") f(static_cast<const Eigen::Map<const T>&>(*m.w1));
   else { std::fprintf(stderr, "bad T register %s\n", r.c_str()); std::exit(3); }
 }
 template <class F> static void withTMut(Machine& m, const std::string& r, F&& f) {
-  if (r == "u0") f(m.u[0]); else if (r == "u1") f(m.u[1]); else if (r == "v0") { Eigen::Map<T> v(m.ts(0)); f(v); }
+  if (r == "u0") f(m.u[0]); else if (r == "u1") f(m.u[1]); else if (r == "v0") f(*m.v0);
   else { std::fprintf(stderr, "bad mutable T register %s\n", r.c_str()); std::exit(3); }
 }
 
